@@ -407,3 +407,64 @@ M('c16-loop-to-comprehension', ['C16'], Y23 + 'f1040.py', "            for n in 
 M('r175-inline-status-dropped', ['C17'], Y21 + 'f1040_s2_need6251.py', "            if i['1040.filing_status'] in [filing_status.Single, filing_status.HeadOfHousehold]:\n                return 73600.0", "            if i['1040.filing_status'] in [filing_status.Single]:\n                return 73600.0", 'R17.5', 'a status dropped from an inline 2021 chain falls into not_implemented()')
 M('r175-inline-none', ['C17'], Y21 + 'f1040_s2_need6251.py', "            elif i['1040.filing_status'] == filing_status.MarriedFilingSeparately:\n                return 57300.0\n            else:\n                self.not_implemented()", "            elif i['1040.filing_status'] == filing_status.MarriedFilingSeparately:\n                return None", 'R17.5', 'a status yields nothing in a pure switch')
 M('r186-nc-status-boxes', ['C18'], Y23 + 'fnc_d_400.py', "BooleanField('4', lambda s, i, v: i['1040.filing_status'] == enum.filing_status.HeadOfHousehold),", "BooleanField('4', lambda s, i, v: i['1040.filing_status'] != enum.filing_status.Single),", 'R18.6', 'NC filing-status box 4 is on for every status but single (two boxes on)')
+
+
+# ------------------------------------------------------------------ round 5 of the seeded changes
+M('l1-forms-map-membership', ['C03', 'C05'], Y23 + 'f8889.py',
+  "s.not_implemented() if i['1040_s1.hsa_contribution_you'] and i['1040_s1.hsa_contribution_spouse'] and i['hdhp_plan_family'] else v['5']",
+  "s.not_implemented() if '8889:spouse' in s.form().solver().forms and i['hdhp_plan_family'] else v['5']", 'L1',
+  'a line asks which forms the solver has loaded so far (seed C03-J)')
+M('l2-reversed-is-pure', ['C03', 'C05', 'C07'], Y21 + 'f1040_figure_tax.py', "    for row in TAX_TABLE:\n        if taxable_amount >= row[0] and taxable_amount < row[1]:",
+  "    for row in reversed(TAX_TABLE):\n        if taxable_amount >= row[0] and taxable_amount < row[1]:", None, 'the table is scanned from the top: same function', expect='silent')
+M('c07-round-before-lookup', ['C07'], Y21 + 'f1040_figure_tax.py', "    for row in TAX_TABLE:\n        if taxable_amount >= row[0] and taxable_amount < row[1]:",
+  "    dollars = round(taxable_amount)\n    for row in TAX_TABLE:\n        if dollars >= row[0] and dollars < row[1]:", 'D2',
+  'the amount is rounded to whole dollars before the row is looked up: x.50-x.99 at the end of a row lands in the next row (seed C07-J)')
+M('c07-int-zero', ['C07'], Y22 + 'f1040_figure_tax.py', "    if taxable_amount < 100000:\n        return figure_tax_table(taxable_amount, filing_status_index)",
+  "    if taxable_amount <= 0:\n        return 0\n    if taxable_amount < 100000:\n        return figure_tax_table(taxable_amount, filing_status_index)", 'D1',
+  'figure_tax returns the int 0 for no income: the money line rejects it (seed C07-I)')
+M('c07-float-zero', ['C07'], Y22 + 'f1040_figure_tax.py', "    if taxable_amount < 100000:\n        return figure_tax_table(taxable_amount, filing_status_index)",
+  "    if taxable_amount <= 0:\n        return 0.0\n    if taxable_amount < 100000:\n        return figure_tax_table(taxable_amount, filing_status_index)", None,
+  'an early 0.0 for no income: same function', expect='silent')
+M('k21b-places-or-default', ['C12'], FI, "        self._places = places\n", "        self._places = places or 2\n", 'K21b', 'a declared 0 places becomes 2 (seed C12-I)')
+M('k21b-places-none-default', ['C12'], FI, "    def __init__(self, name, value_fn, places=2):\n        self._empty_value = 0.0\n        self._places = places\n",
+  "    def __init__(self, name, value_fn, places=None):\n        self._empty_value = 0.0\n        self._places = places if places is not None else 2\n", None,
+  'None as "not declared": every declared value is kept', expect='silent')
+M('k25-prose-line-in-template', ['C17'], CLI, "    print(f'# {f.full_description()}')\n", "    print(f'# {f.full_description()}')\n    print(f'Inputs of {f.name()}: see below')\n", 'K25',
+  'list-form-inputs prints an uncommented line of prose (seed C17-I)')
+M('k25-extra-comment-line', ['C17'], CLI, "    print(f'# {f.full_description()}')\n", "    print(f'# {f.full_description()}')\n    print(f'# tax year {f.tax_year}')\n", None,
+  'one more comment line in the template', expect='silent')
+M('r18-wrong-blank', ['C18', 'C19'], Y23 + 'f8959.py', "'f8959.pdf')", "'f8995.pdf')", 'R1', 'Form 8959 is filled into the blank of Form 8995 (seed C19-I)')
+M('r18-nc-wrong-blank', ['C18', 'C19'], Y22 + 'fnc_d_400_sa.py', "'fnc_d-400_sa.pdf')", "'fnc_d-400_ss.pdf')", 'R1', 'NC Schedule A is filled into the blank of Schedule S')
+M('r9-statutory-last-only', ['C09'], Y21 + 'f1040.py', "                if v[f'w-2:{n}.box_13_statutory']:\n                    statutory = True\n",
+  "                statutory = v[f'w-2:{n}.box_13_statutory']\n", 'R9', 'only the last W-2 decides the statutory-employee gate (seed C09-J)')
+M('r9-statutory-any', ['C09', 'C10', 'C03'], Y21 + 'f1040.py', "            for n in range(i['number_w-2']):\n                if v[f'w-2:{n}.box_13_statutory']:\n                    statutory = True\n",
+  "            statutory = any(v[f'w-2:{n}.box_13_statutory'] for n in range(i['number_w-2']))\n", None, 'the latch written with any(): same gate', expect='silent')
+M('k1b-solve-per-form', ['C01', 'C09'], CLI, "        successful = s.solve(args.forms)\n", "        successful = True\n        for form_name in args.forms:\n            successful = s.solve([form_name]) and successful\n", 'K1b',
+  'the CLI solves the forms one by one on one Solver whose success flag is sticky (seed C09-I)')
+M('k30-assert-on-names', ['C10'], S, "            assert i not in self._input_map\n", "            assert i.name() not in self._input_map\n", 'K30',
+  'the never-firing assertion is "fixed" to test names: loading inputs first and lines later now trips it (seed C10-I)')
+M('k31-walk-without-memory', ['C06'], S, "    def solution(self):\n",
+  "    def _cycle_from(self, start, waiting_on):\n        current = waiting_on[start]\n        while current in waiting_on and current != start:\n            current = waiting_on[current]\n        return current == start\n\n    def solution(self):\n",
+  'K31', 'a diagnostic walks the waits-on table until it is back at the start: never ends on a tail into a cycle (seed C06-I)')
+M('k31-walk-with-memory', ['C06'], S, "    def solution(self):\n",
+  "    def _cycle_from(self, start, waiting_on):\n        seen = set()\n        current = waiting_on[start]\n        while current in waiting_on and current != start and current not in seen:\n            seen.add(current)\n            current = waiting_on[current]\n        return current == start\n\n    def solution(self):\n",
+  None, 'the same walk remembering where it has been', expect='silent')
+M('k32-return-on-refusal', ['C01', 'C06', 'C11', 'C13'], S, "                    self._attempt_input(input_name, needed_by)\n                    if self._refused_input:\n                        break\n",
+  "                    if not self._attempt_input(input_name, needed_by):\n                        self._done_solving = True\n                        return self._solved\n", 'K32',
+  'solve() returns straight from the prompting loop when the user declines (seed C11-J)')
+M('k10-break-on-the-answer', ['C06', 'C13', 'C20'], S, "                    self._attempt_input(input_name, needed_by)\n                    if self._refused_input:\n                        break\n",
+  "                    if not self._attempt_input(input_name, needed_by):\n                        break\n", None, 'the loop tests the answer of _attempt_input instead of the flag it sets: same behaviour', expect='silent')
+M('l2c-generator-twice', ['C02', 'C03', 'C05'], Y23 + 'f1040_sa.py',
+  "            mortgage_interest_points = sum([v[f'1098:{n}.box_1'] for n in range(i['1040.number_1098'])])\n            mortgage_interest_points += sum([v[f'1098:{n}.box_6'] for n in range(i['1040.number_1098'])])\n",
+  "            forms_1098 = (f'1098:{n}' for n in range(i['1040.number_1098']))\n            mortgage_interest_points = sum(v[f'{form}.box_1'] for form in forms_1098)\n            mortgage_interest_points += sum(v[f'{form}.box_6'] for form in forms_1098)\n",
+  'L2c', 'one generator of form names feeds two sums: the second adds nothing (seed C02-I)')
+M('l2c-list-twice', ['C02', 'C03', 'C05', 'C10', 'C15'], Y23 + 'f1040_sa.py',
+  "            mortgage_interest_points = sum([v[f'1098:{n}.box_1'] for n in range(i['1040.number_1098'])])\n            mortgage_interest_points += sum([v[f'1098:{n}.box_6'] for n in range(i['1040.number_1098'])])\n",
+  "            forms_1098 = [f'1098:{n}' for n in range(i['1040.number_1098'])]\n            mortgage_interest_points = sum(v[f'{form}.box_1'] for form in forms_1098)\n            mortgage_interest_points += sum(v[f'{form}.box_6'] for form in forms_1098)\n",
+  None, 'a list of form names feeds two sums: same line', expect='silent')
+M('r16-rows-keyed-by-payer', ['C16'], Y22 + 'f1040_sb.py',
+  "lambda s, i, v: v[f'1099-int:{s.which_1099int}.box_1'] + v[f'1099-int:{s.which_1099int}.box_3'] if s.which_1099int < i['1040.number_1099-int'] else None)",
+  "lambda s, i, v: (list({v[f'1099-int:{n}.payer']: v[f'1099-int:{n}.box_1'] + v[f'1099-int:{n}.box_3'] for n in range(i['1040.number_1099-int'])}.values()) + [None] * 14)[s.which_1099int])",
+  'R16.1', 'Schedule B rows built from a mapping keyed by payer name: two copies with one payer collapse (seed C16-I)')
+M('k24e-c04-del-needed-by', ['C04'], CLI, "def prompt_input(missing, needed_by):\n", "def prompt_input(missing, needed_by):\n    del needed_by[25:]\n", 'K24e',
+  'the prompt shortens the list of waiting lines it was handed - the tracker\'s own list (seed C04-I)')
